@@ -11,6 +11,7 @@ sent = receives performed, label by label; after shutdown every endpoint has emp
 leftover bytes.  Uniqueness across different coroutines relies on the 64-bit hop being collision free
 on the pcs of a run (not provable; this monitor checks it on every run).
 """
+import math
 import os
 import sys
 sys.path.insert(0, os.path.dirname(os.path.dirname(os.path.abspath(__file__))))
@@ -91,7 +92,9 @@ def check_wire(net, elog):
     for (a, b), stream in net.wire.items():
         hs_len = 0
         if a < b:  # a is client: pid + keys
-            hs_len = 2 + (0 if net.no_prss else 16 * len(net.rts[a]._prss_keys_to_peer(b)))
+            # keys of the subsets of size m - t with least element a that contain b, t the threshold AT CONNECT TIME
+            tc = getattr(net, 't_connect', net.t)
+            hs_len = 2 + (0 if net.no_prss else 16 * (math.comb(m - a - 2, m - tc - 2) if m - tc >= 2 else 0))
         hs, frames, rest = parse_frames(stream, hs_len)
         if rest:
             return f'channel {a}->{b}: {len(rest)} trailing bytes that do not form a frame', info
@@ -146,7 +149,8 @@ def run(ctx):
                     ctx.count('frames', nfr)
                     if k == 0 and nfr and sum(len(o) for o in ops) < 400000:
                         role = 'server' if a < b else f'client:{a}'
-                        keyblock = 0 if net.no_prss or a > b else 16 * len(net.rts[a]._prss_keys_to_peer(b))
+                        tc = getattr(net, 't_connect', net.t)
+                        keyblock = 0 if net.no_prss or a > b or m - tc < 2 else 16 * math.comb(m - a - 2, m - tc - 2)
                         # keyLen pid = ka*((pid*7)%5)+kb : use ka=0, kb=keyblock
                         lines.append(f'run {role} {1 if net.no_prss else 0} 0 {keyblock} ' + ' '.join(ops))
                         exps.append(f'|buf=-|peer={a}|buffers=')
